@@ -68,7 +68,7 @@ def R1_edge_step(ctx):
         graph = ("field", ("arg", 4), "directed_graph")
         trip = ("call", G + "edge_triplet", (graph, ("arg", 1)))
         other = ("call", G + "get_edge", (graph, ("arg", 2)))  # Option payload stripped
-        tr_args = nosite(deep_strip(tm.operand(trv.args[1], trv.bb)))
+        tr_args = proj_simplify(nosite(deep_strip(tm.operand(trv.args[1], trv.bb))))
         ctx.check(tr_args == trip, fn + ":traversal-trajectory", "traverse_edge is not given edge_triplet(this edge): %s" % short(tr_args)[:120], trv.where())
         at = nosite(deep_strip(tm.operand(acc.args[1], acc.bb)))
         f = lambda i: ("field", trip, str(i))
